@@ -15,7 +15,7 @@ ID = "C12"
 BUDGET = {"quick": 1500, "thorough": 50000}
 REQUIRED = ["call:assemble", "call:clear", "call:backport", "call:delete", "call:move", "call:modify_patch", "call:merge_patches",
             "call:set_default_patch", "call:write", "judged:write-vs-fresh", "judged:write-twice", "judged:backport-points",
-            "judged:backport-after-delete", "judged:modify-then-clear"]
+            "judged:backport-after-delete", "judged:modify-then-clear", "mode:propagate", "mode:all-chopped"]
 MIN_KEYS = 100
 RULE = (
     "histories of <= 10 calls over {add, delete, assemble, move vertices, backport, clear, modify_patch, set_default_patch, "
@@ -33,18 +33,41 @@ ASSUMPTIONS = [
 
 def gen_case(ctx):
     rng = ctx.rng
-    asm = lattice.gen_assembly(rng, max_dims=(2, 2, 2), max_blocks=5)
-    cnt = [rng.randint(1, 4) for _ in range(3)]
+    base = lattice.gen_assembly(rng, max_dims=(2, 2, 2), max_blocks=5, rotate=False)
+    # chops are given per lattice direction (single count or two unequal sections) so that they are consistent;
+    # mode "all": every operation carries them (deletions allowed); mode "propagate": one or more carriers per count
+    # family, the other blocks copy from their neighbours (also from oppositely numbered ones) - no deletions then
+    propagate = rng.random() < 0.5
+    spec = []
+    for d in range(3):
+        if rng.random() < 0.5:
+            spec.append([{"count": rng.randint(1, 4)}])
+        else:
+            lr = rng.choice([0.3, 0.25, 0.6])
+            spec.append([{"count": rng.randint(1, 3), "length_ratio": lr, "c2c_expansion": rng.choice([1.0, 1.2])},
+                         {"count": rng.randint(2, 4), "length_ratio": 1 - lr}])
+    if propagate:
+        fid, fam, _ = lattice.families(base)
+        for r, members in fam.items():
+            for b, a in rng.sample(members, rng.randint(1, len(members))):
+                for kw in spec[a]:
+                    base["blocks"][b]["chops"].append([a, dict(kw)])
+    else:
+        for blk in base["blocks"]:
+            for d in range(3):
+                for kw in spec[d]:
+                    blk["chops"].append([d, dict(kw)])
+    asm = lattice.realise(base, None, [rng.randrange(24) for _ in base["blocks"]])
     ops = []
     for blk in asm["blocks"]:
-        g = axis_geo(blk)
         patches = {s: rng.choice(["walls", "inlet", "outlet"]) for s in hexconv.SIDE_NAMES if rng.random() < 0.3}
-        ops.append({"pts": blk["pts"], "nodes": blk["nodes"], "counts": [cnt[g[a][0]] for a in range(3)], "patches": patches})
+        ops.append({"pts": blk["pts"], "nodes": blk["nodes"], "chops": blk["chops"], "patches": patches})
     # a possible merged pair
     pair = None
     for x, y in itertools.combinations(range(len(ops)), 2):
         common = set(ops[x]["nodes"]) & set(ops[y]["nodes"])
-        if len(common) == 4 and rng.random() < 0.5:
+        # (not in propagate mode: a merged pair duplicates the slave side's vertices, which cuts the count families there)
+        if len(common) == 4 and rng.random() < 0.5 and not propagate:
             sx = [s for s, c in hexconv.SIDES.items() if {ops[x]["nodes"][k] for k in c} == common][0]
             sy = [s for s, c in hexconv.SIDES.items() if {ops[y]["nodes"][k] for k in c} == common][0]
             ops[x]["patches"][sx], ops[y]["patches"][sy] = "mM", "mS"
@@ -55,7 +78,8 @@ def gen_case(ctx):
     nodes = sorted({nd for o in ops for nd in o["nodes"]})
     hist = []
     added, deleted, assembled, merged = [], set(), False, False
-    first = rng.sample(range(n), rng.randint(1, n))
+    first = list(range(n)) if propagate else rng.sample(range(n), rng.randint(1, n))
+    rng.shuffle(first)
     for i in first:
         hist.append(["add", i])
         added.append(i)
@@ -66,7 +90,7 @@ def gen_case(ctx):
         if not assembled:
             if len(added) < n:
                 choices += ["add"]
-            if len(live) > 1:
+            if len(live) > 1 and not propagate:
                 choices += ["delete", "delete"]
             if pair and not merged and pair[2] in added and pair[3] in added:
                 choices += ["merge_patches", "merge_patches"]
@@ -108,14 +132,14 @@ def gen_case(ctx):
             hist.append(["write", rng.random() < 0.4])
     hist.append(["write", rng.random() < 0.5])
     del nodes
-    return {"ops": ops, "history": hist}
+    return {"ops": ops, "history": hist, "propagate": propagate}
 
 
 def make_op(cb, o, pts):
     p = np.array(pts, dtype=float)
     op = cb.Loft(cb.Face(p[:4]), cb.Face(p[4:]))
-    for a in range(3):
-        op.chop(a, count=o["counts"][a])
+    for a, kw in o["chops"]:
+        op.chop(a, **kw)
     for s, nm in o["patches"].items():
         op.set_patch(s, nm)
     return op
@@ -293,7 +317,8 @@ def run_case(ctx, case):
                 raise
             ctx.violation(f"call-raised:{name}:{type(exc).__name__}", f"history {case['history'][:step+1]}: {exc!r}")
             return
-    ctx.key(names, nontrivial=lifecycle >= 2)
+    ctx.count("mode:propagate" if case.get("propagate") else "mode:all-chopped")
+    ctx.key([names, bool(case.get("propagate"))], nontrivial=lifecycle >= 2)
     ctx.sample({"n_ops": n, "history": case["history"]})
 
 
